@@ -280,6 +280,31 @@ fn crafted(k: u64) -> PathSpec {
     }
 }
 
+/// An active edge A that (1) is cut by a crossing the sweep has already found, (2) has a vertex of another sub-path lying
+/// exactly on it above that crossing, (3) where an edge starts that is coincident with A and ends before the crossing: the
+/// split parameter computed by `merge_coincident_edges` must be remapped into the range A has *now* (its end was shortened
+/// by the intersection), not into the range recorded when A was pushed.  Parameters are decoded from `k` (no random draw);
+/// all points are multiples of 1/4 on the diagonal, optionally mirrored / transposed.
+fn cut_then_coincident(k: u64) -> PathSpec {
+    let c = 5.0 + (k % 3) as f32; // crossing at (c, c)
+    let j = 1.0 + ((k / 3) % 2) as f32; // vertex on A at v = c - 1 + j/4
+    let len = 1.0 + ((k / 6) % 2) as f32; // coincident edge of length len/4 (stays above the crossing: j + len <= 3)
+    let mirror = (k / 12) % 2 == 1;
+    let transpose = (k / 24) % 2 == 1;
+    let v = c - 1.0 + j / 4.0;
+    let w = v + len / 4.0;
+    let m = |p: (f32, f32)| -> (f32, f32) {
+        let p = if mirror { (-p.0, p.1) } else { p };
+        if transpose { (p.1, p.0) } else { p }
+    };
+    let polys: Vec<Vec<(f32, f32)>> = vec![
+        vec![m((0.0, 0.0)), m((8.0, 8.0)), m((-8.0, 8.0))],
+        vec![m((c + 1.0, c - 1.0)), m((c - 1.0, c + 1.0)), m((c + 1.5, c + 1.0))],
+        vec![m((v, v)), m((w, w)), m((v - 1.5, v + 1.0))],
+    ];
+    PathSpec::from_polylines(&polys, &[true, true, true])
+}
+
 /// curved paths kept from earlier failures (run first, with every orientation / rule)
 fn corpus() -> Vec<PathSpec> {
     let q = |c: (f32, f32), p: (f32, f32)| Seg::Quad(point(c.0, c.1), point(p.0, p.1), vec![]);
@@ -327,7 +352,13 @@ pub fn main(args: &Args) -> std::io::Result<()> {
                 }
                 (s, Gen { affine: None })
             }
-            0 => with_affine_attrs(crafted(rng.below(6)), &mut rng, n_attr),
+            0 => {
+                let k = rng.below(6);
+                // every third crafted case is the cut-then-coincident family (decoded from the iteration number, so the
+                // random stream of all other cases is unchanged)
+                let s = if (it / 5) % 3 == 2 { cut_then_coincident((it / 15) as u64) } else { crafted(k) };
+                with_affine_attrs(s, &mut rng, n_attr)
+            }
             1 | 2 => {
                 let s = random_polygonal(&mut rng, 3, 6, 8);
                 with_affine_attrs(s, &mut rng, n_attr)
